@@ -14,20 +14,23 @@ Proof.
   rewrite (fv_entries P f A D V). apply consec_app; [exact C|]. rewrite map_length. now apply IH.
 Qed.
 
+Lemma flen_app_ : forall a b, flen (a ++ b) = flen a + flen b.
+Proof. intros. unfold flen. rewrite map_app, concat_app, app_length. lia. Qed.
+
 Section Facts.
   Variable P : params.
   Variables (d : disk) (i0 : N) (Ac : list row).
   Hypothesis I : dinv P i0 d Ac.
 
   Lemma inv_log : log_of d = concat (map file_entries (d_files d)) ++ map row_entry Ac.
-  Proof. destruct I as (H1 & Hch & V & C & Hn & He). rewrite log_of_eq, (fv_entries P (d_cur d) Ac [] V). reflexivity. Qed.
+  Proof. destruct I as (H1 & Hch & V & C & Hn & HKl). rewrite log_of_eq, (fv_entries P (d_cur d) Ac [] V). reflexivity. Qed.
 
   Lemma inv_len : N.of_nat (length (log_of d)) = flen (d_files d) + N.of_nat (length Ac).
   Proof. rewrite inv_log, app_length, map_length. unfold flen. lia. Qed.
 
   Lemma inv_consec : consec i0 (log_of d).
   Proof.
-    destruct I as (H1 & Hch & V & C & Hn & He). rewrite inv_log. apply consec_app; [now apply (chain_consec P)|].
+    destruct I as (H1 & Hch & V & C & Hn & HKl). rewrite inv_log. apply consec_app; [now apply (chain_consec P)|].
     unfold flen in C. exact C.
   Qed.
 
@@ -38,7 +41,7 @@ Section Facts.
 
   Lemma inv_disk_first : disk_first d = first_of (log_of d).
   Proof.
-    pose proof I as (H1 & Hch & V & C & Hn & He). unfold disk_first.
+    pose proof I as (H1 & Hch & V & C & Hn & HKl). unfold disk_first.
     destruct (d_files d) as [|f t] eqn:Ef.
     - rewrite flen_nil, N.add_0_r in C.
       destruct (nil_or_not Ac) as [EA|EA].
@@ -52,30 +55,64 @@ Section Facts.
       destruct A; [congruence|discriminate].
   Qed.
 
+  Lemma inv_log_nil : log_of d = [] -> Ac = [] /\ d_files d = [].
+  Proof.
+    intro E. rewrite inv_log in E. apply app_eq_nil in E as [E1 E2]. split; [destruct Ac; [reflexivity|discriminate]|].
+    destruct I as (_ & Hch & _). destruct (d_files d) as [|f t]; [reflexivity|]. cbn [chain] in Hch.
+    destruct Hch as (A & D & V & HA & _). cbn [map concat] in E1. rewrite (fv_entries P f A D V) in E1.
+    apply app_eq_nil in E1 as [E1 _]. destruct A; [congruence|discriminate].
+  Qed.
+
+  (* either nothing at all is stored, or the log is not empty (the current file may still be empty beside older files) *)
+  Lemma inv_cases : (Ac = [] /\ d_files d = [] /\ log_of d = []) \/ log_of d <> [].
+  Proof.
+    destruct (nil_or_not (log_of d)) as [E|E]; [left|right; exact E]. destruct (inv_log_nil E) as [E1 E2]. auto.
+  Qed.
+
+  Lemma inv_ne_cur : Ac <> [] -> log_of d <> [].
+  Proof. intros EA. rewrite inv_log. destruct Ac; [congruence|]. intro X. apply app_eq_nil in X as [_ X]. discriminate. Qed.
+
+  Lemma inv_ne_files : d_files d <> [] -> log_of d <> [].
+  Proof. intros Hf E. destruct (inv_log_nil E) as [_ X]. congruence. Qed.
+
   Lemma inv_log_last : log_last P d = last_of (log_of d).
   Proof.
-    pose proof I as (H1 & Hch & V & C & Hn & He). unfold log_last. rewrite Hn.
+    pose proof I as (H1 & Hch & V & C & Hn & HKl). unfold log_last. rewrite Hn.
     destruct (nil_or_not Ac) as [EA|EA].
     - rewrite EA. cbn [length N.of_nat]. replace (0 <? 0) with false by reflexivity.
-      rewrite (He EA). cbn. rewrite inv_log, (He EA), EA. reflexivity.
+      destruct (nil_or_not (d_files d)) as [Ef|Ef].
+      + rewrite Ef. cbn. rewrite inv_log, Ef, EA. reflexivity.
+      + (* empty current file beside older files: the last entry of the newest rotated file *)
+        destruct (exists_last Ef) as (pre & f & Hf). rewrite Hf, rev_app_distr. cbn [rev app map find].
+        rewrite Hf in Hch. apply chain_app in Hch as [Hpre Hrest]. cbn [chain] in Hrest.
+        destruct Hrest as (A & D & Vf & HA & Cf & _). pose proof (length_pos_ne A HA) as Hpos.
+        unfold last_entry_index. rewrite (first_empty_view P f A D 1 Vf ltac:(lia)).
+        destruct (0 <? N.of_nat (length A)) eqn:E0; [|lia].
+        replace (N.of_nat (length A) - 1) with (N.of_nat (length A - 1)) by lia.
+        rewrite (view_index P f A D (i0 + flen pre) Vf Cf) by lia.
+        destruct (0 <? i0 + flen pre + N.of_nat (length A - 1)) eqn:E1; [|lia].
+        assert (Hne : log_of d <> []).
+        { rewrite inv_log, Hf, map_app, concat_app. cbn [map concat]. rewrite (fv_entries P f A D Vf).
+          destruct A; [congruence|]. intro X. apply app_eq_nil in X as [X _]. apply app_eq_nil in X as [_ X].
+          cbn in X. discriminate. }
+        rewrite (consec_last _ _ inv_consec Hne). pose proof inv_len as L. rewrite EA, Hf in L. cbn [length] in L.
+        rewrite flen_app_ in L. rewrite (flen_cons P f A D [] Vf), flen_nil in L. lia.
     - pose proof (length_pos_ne Ac EA) as Hpos.
       destruct (0 <? N.of_nat (length Ac)) eqn:E; [|lia].
       replace (N.of_nat (length Ac) - 1) with (N.of_nat (length Ac - 1)) by lia.
       rewrite (view_index P (d_cur d) Ac [] (i0 + flen (d_files d)) V C) by lia.
-      assert (Hne : log_of d <> []) by (rewrite inv_log; destruct Ac; [congruence|]; intro X; apply app_eq_nil in X as [_ X]; discriminate).
+      pose proof (inv_ne_cur EA) as Hne.
       rewrite (consec_last _ _ inv_consec Hne). pose proof inv_len. lia.
   Qed.
 
   Lemma inv_disk_last : disk_last P d = a_last (abs d).
   Proof. unfold disk_last, a_last. rewrite inv_log_last. reflexivity. Qed.
 
-  Lemma inv_files_nonempty_log : d_files d <> [] -> Ac <> [].
-  Proof. destruct I as (_ & _ & _ & _ & _ & He). intros Hf EA. apply Hf, He, EA. Qed.
 End Facts.
 
-Lemma dinv_empty_any : forall P i0 d, dinv P i0 d [] -> forall j, 1 <= j -> dinv P j d [].
+Lemma dinv_empty_any : forall P i0 d, dinv P i0 d [] -> d_files d = [] -> forall j, 1 <= j -> dinv P j d [].
 Proof.
-  intros P i0 d (H1 & Hch & V & C & Hn & He) j Hj. specialize (He eq_refl).
+  intros P i0 d (H1 & Hch & V & C & Hn & HKl) He j Hj.
   unfold dinv. rewrite He in *. cbn [chain map]. repeat (split; auto).
 Qed.
 
@@ -97,16 +134,13 @@ Lemma seek_entry_spec : forall P d i0 Ac i,
               then Compacted else Unavailable), zero_slot)
   end.
 Proof.
-  intros P d i0 Ac i I Hi. pose proof I as (H1 & Hch & V & C & Hn & He).
+  intros P d i0 Ac i I Hi. pose proof I as (H1 & Hch & V & C & Hn & HKl).
   unfold seek_entry. destruct (i =? 0) eqn:Ei0; [lia|].
-  destruct (nil_or_not Ac) as [EA|EA].
+  destruct (inv_cases P d i0 Ac I) as [(EA & Ef & Hl)|Hne].
   - (* empty log *)
-    assert (Hl : log_of d = []) by (rewrite (inv_log P d i0 Ac I), (He EA), EA; reflexivity).
     rewrite Hl. unfold lookup. cbn [first_of]. destruct (i <? 1); [|destruct (N.to_nat (i - 1)); cbn [nth_error]];
-      rewrite (slot_ge_empty P d i0 Ac I EA i); cbn; rewrite ?orb_true_r; reflexivity.
-  - assert (Hne : log_of d <> []).
-    { rewrite (inv_log P d i0 Ac I). destruct Ac; [congruence|]. intro X. apply app_eq_nil in X as [_ X]. discriminate. }
-    assert (Hf : first_of (log_of d) = i0) by (apply (inv_first P d i0 Ac I Hne)).
+      rewrite (slot_ge_empty P d i0 Ac I EA Ef i); cbn; rewrite ?orb_true_r; reflexivity.
+  - assert (Hf : first_of (log_of d) = i0) by (apply (inv_first P d i0 Ac I Hne)).
     assert (Hnel : (match log_of d with [] => true | _ => false end) = false) by (destruct (log_of d); [congruence|reflexivity]).
     rewrite Hnel, orb_false_r. unfold lookup. rewrite Hf.
     set (c0 := i0 + flen (d_files d)).
@@ -166,9 +200,19 @@ Proof.
            rewrite Hnth. eexists. split; [reflexivity|]. unfold slot_at.
            rewrite (fv_row_at_live P (d_cur d) Ac [] p V) by (unfold p; lia). reflexivity.
         -- (* beyond the last index *)
-           rewrite (slot_ge_cur_beyond P d i0 Ac I i EA) by (fold c0; lia).
            assert (Hnone : nth_error (log_of d) (N.to_nat (i - i0)) = None).
            { apply nth_error_None. pose proof (inv_len P d i0 Ac I). unfold c0 in *. lia. }
+           destruct (nil_or_not Ac) as [EA|EA].
+           { (* the current file is empty: the newest rotated file answers with its first empty slot *)
+             assert (Ef : d_files d <> []).
+             { intro Ef. apply Hne. rewrite (inv_log P d i0 Ac I), Ef, EA. reflexivity. }
+             destruct (exists_last Ef) as (pre & f & Hfs).
+             destruct (slot_ge_files_beyond P d i0 Ac I EA pre f i Hfs ltac:(fold c0; rewrite EA in E3; cbn in E3; lia))
+               as (A & D & Vf & HAf & Cf & ->).
+             rewrite Hnone. destruct (max_entries P <=? N.of_nat (length A)) eqn:E4; [reflexivity|].
+             cbn [sel_file]. rewrite Hfs, app_nth2 by lia. rewrite Nat.sub_diag. cbn [nth].
+             rewrite (fv_row_at_beyond P f A D (length A) Vf) by lia. reflexivity. }
+           rewrite (slot_ge_cur_beyond P d i0 Ac I i EA) by (fold c0; lia).
            rewrite Hnone. destruct (max_entries P <=? N.of_nat (length Ac)) eqn:E4; [reflexivity|].
            cbn [sel_file]. rewrite (fv_row_at_beyond P (d_cur d) Ac [] (length Ac) V) by lia. reflexivity.
 Qed.
@@ -258,9 +302,8 @@ Qed.
 Lemma dinv_at_first : forall P i0 d Ac, dinv P i0 d Ac -> dinv P (first_of (log_of d)) d Ac.
 Proof.
   intros P i0 d Ac I. destruct (nil_or_not (log_of d)) as [E|E].
-  - assert (EA : Ac = []).
-    { rewrite (inv_log P d i0 Ac I) in E. apply app_eq_nil in E as [_ E]. destruct Ac; [reflexivity|discriminate]. }
-    subst Ac. rewrite E. apply (dinv_empty_any P i0 d I). cbn. lia.
+  - destruct (inv_log_nil P d i0 Ac I E) as [EA Ef].
+    subst Ac. rewrite E. apply (dinv_empty_any P i0 d I Ef). cbn. lia.
   - now rewrite (inv_first P d i0 Ac I E).
 Qed.
 
@@ -328,17 +371,14 @@ Lemma delete_before_state : forall P d i0 Ac j,
   /\ fst (delete_before P j d)
      = (if (j <? first_of (log_of d)) || (match log_of d with [] => true | _ => false end) then OtherErr else Ok).
 Proof.
-  intros P d i0 Ac j I. pose proof I as (H1 & Hch & V & C & Hn & He).
+  intros P d i0 Ac j I. pose proof I as (H1 & Hch & V & C & Hn & HKl).
   assert (Hsame : log_of d = drop_below (disk_first d) (log_of d)).
   { unfold drop_below. rewrite (inv_disk_first P d i0 Ac I), N.sub_diag. reflexivity. }
   unfold delete_before.
-  destruct (nil_or_not Ac) as [EA|EA].
-  - rewrite (slot_ge_empty P d i0 Ac I EA j). cbn [fst snd].
-    assert (Hl : log_of d = []) by (rewrite (inv_log P d i0 Ac I), (He EA), EA; reflexivity).
+  destruct (inv_cases P d i0 Ac I) as [(EA & Ef & Hl)|Hne].
+  - rewrite (slot_ge_empty P d i0 Ac I EA Ef j). cbn [fst snd].
     split; [eauto|]. split; [exact Hsame|]. split; [reflexivity|]. rewrite Hl, orb_true_r. reflexivity.
-  - assert (Hne : log_of d <> []).
-    { rewrite (inv_log P d i0 Ac I). destruct Ac; [congruence|]. intro X. apply app_eq_nil in X as [_ X]. discriminate. }
-    assert (Hf : first_of (log_of d) = i0) by (apply (inv_first P d i0 Ac I Hne)).
+  - assert (Hf : first_of (log_of d) = i0) by (apply (inv_first P d i0 Ac I Hne)).
     assert (Hnel : (match log_of d with [] => true | _ => false end) = false) by (destruct (log_of d); [congruence|reflexivity]).
     rewrite Hnel, orb_false_r, Hf.
     set (c0 := i0 + flen (d_files d)).
@@ -360,15 +400,35 @@ Proof.
         assert (I' : dinv P fi d' Ac).
         { unfold dinv, d'. cbn [d_files d_cur d_next]. split; [unfold fi; lia|]. split; [exact Hch'|]. split; [exact V|].
           split; [replace (fi + flen (f :: post)) with (i0 + flen (d_files d)) by (unfold fi; lia); exact C|].
-          split; [exact Hn|]. intro E. congruence. }
+          split; [exact Hn|]. intro E. specialize (HKl E). rewrite Hfs in HKl. apply Forall_app in HKl. tauto. }
         split; [eauto|]. split; [|split; reflexivity].
-        assert (Hne' : log_of d' <> []).
-        { rewrite (inv_log P d' fi Ac I'). destruct Ac; [congruence|]. intro X. apply app_eq_nil in X as [_ X]. discriminate. }
+        assert (Hne' : log_of d' <> []) by (apply (inv_ne_files P d' fi Ac I'); discriminate).
         rewrite (inv_disk_first P d' fi Ac I'), (inv_first P d' fi Ac I' Hne'). unfold drop_below. rewrite Hf.
         rewrite (inv_log P d' fi Ac I'), (inv_log P d i0 Ac I). unfold d'. cbn [d_files]. rewrite Hfs, map_app, concat_app, <- app_assoc.
         replace (N.to_nat (fi - i0)) with (length (concat (map file_entries pre))) by (unfold fi, flen; lia).
         now rewrite skipn_exact.
-      * assert (Hsel : exists p, slot_ge P d j = (InCur, Some p)).
+      * destruct (nil_or_not Ac) as [EA|EA].
+        { (* empty current file beside older files: everything but the newest rotated file goes *)
+          assert (Ef : d_files d <> []).
+          { intro Ef. apply Hne. rewrite (inv_log P d i0 Ac I), Ef, EA. reflexivity. }
+          destruct (exists_last Ef) as (pre & f & Hfs).
+          destruct (slot_ge_files_beyond P d i0 Ac I EA pre f j Hfs ltac:(fold c0; lia)) as (A & D & Vf & HAf & Cf & ->).
+          cbn [fst snd]. set (fi := i0 + flen pre) in *.
+          rewrite Hfs, skipn_exact.
+          set (d' := mkdisk [f] (d_cur d) (d_next d) (d_meta d)).
+          assert (Hch' : chain P fi [f]) by (rewrite Hfs in Hch; apply chain_app in Hch as [_ R]; exact R).
+          assert (Hfl : flen (d_files d) = flen pre + flen [f]) by (rewrite Hfs; apply flen_app).
+          assert (I' : dinv P fi d' Ac).
+          { unfold dinv, d'. cbn [d_files d_cur d_next]. split; [unfold fi; lia|]. split; [exact Hch'|]. split; [exact V|].
+            split; [replace (fi + flen [f]) with (i0 + flen (d_files d)) by (unfold fi; lia); exact C|].
+            split; [exact Hn|]. intro E. specialize (HKl E). rewrite Hfs in HKl. apply Forall_app in HKl. tauto. }
+          split; [eauto|]. split; [|split; reflexivity].
+          assert (Hne' : log_of d' <> []) by (apply (inv_ne_files P d' fi Ac I'); discriminate).
+          rewrite (inv_disk_first P d' fi Ac I'), (inv_first P d' fi Ac I' Hne'). unfold drop_below. rewrite Hf.
+          rewrite (inv_log P d' fi Ac I'), (inv_log P d i0 Ac I). unfold d'. cbn [d_files]. rewrite Hfs, map_app, concat_app, <- app_assoc.
+          replace (N.to_nat (fi - i0)) with (length (concat (map file_entries pre))) by (unfold fi, flen; lia).
+          now rewrite skipn_exact. }
+        assert (Hsel : exists p, slot_ge P d j = (InCur, Some p)).
         { destruct (j <? c0 + N.of_nat (length Ac)) eqn:E3.
           - rewrite (slot_ge_cur_inside P d i0 Ac I j) by (fold c0; lia). eauto.
           - rewrite (slot_ge_cur_beyond P d i0 Ac I j EA) by (fold c0; lia). eauto. }
@@ -376,10 +436,9 @@ Proof.
         set (d' := mkdisk [] (d_cur d) (d_next d) (d_meta d)).
         assert (I' : dinv P c0 d' Ac).
         { unfold dinv, d'. cbn [d_files d_cur d_next chain]. rewrite flen_nil, N.add_0_r.
-          split; [unfold c0; lia|]. split; [exact Logic.I|]. split; [exact V|]. split; [exact C|]. split; [exact Hn|]. reflexivity. }
+          split; [unfold c0; lia|]. split; [exact Logic.I|]. split; [exact V|]. split; [exact C|]. split; [exact Hn|]. intros _. constructor. }
         split; [eauto|]. split; [|split; reflexivity].
-        assert (Hne' : log_of d' <> []).
-        { rewrite (inv_log P d' c0 Ac I'). destruct Ac; [congruence|]. intro X. apply app_eq_nil in X as [_ X]. discriminate. }
+        assert (Hne' : log_of d' <> []) by (apply (inv_ne_cur P d' c0 Ac I' EA)).
         rewrite (inv_disk_first P d' c0 Ac I'), (inv_first P d' c0 Ac I' Hne'). unfold drop_below. rewrite Hf.
         rewrite (inv_log P d' c0 Ac I'), (inv_log P d i0 Ac I). unfold d'. cbn [d_files map concat app].
         replace (N.to_nat (c0 - i0)) with (length (concat (map file_entries (d_files d)))) by (unfold c0, flen; lia).
@@ -464,23 +523,66 @@ Proof.
   eapply Forall_impl; [|exact Fa]. cbn. intros g [_ G]. lia.
 Qed.
 
+Lemma insert_file_first : forall f l, Forall (fun g => file_first f < file_first g) l -> insert_file f l = f :: l.
+Proof.
+  intros f l H. destruct H as [|g t Hg Ht]; [reflexivity|]. cbn [insert_file].
+  destruct (file_first g <=? file_first f) eqn:E; [lia|reflexivity].
+Qed.
+
 Lemma open_logs_inv : forall P d i0 Ac,
   dinv P i0 d Ac ->
-  dinv P i0 (open_logs P d) Ac /\ log_of (open_logs P d) = log_of d /\ d_meta (open_logs P d) = d_meta d.
+  (exists Ac', dinv P i0 (open_logs P d) Ac') /\ log_of (open_logs P d) = log_of d /\ d_meta (open_logs P d) = d_meta d
+  /\ (Ac <> [] -> dinv P i0 (open_logs P d) Ac).
 Proof.
-  intros P d i0 Ac I. pose proof I as (H1 & Hch & V & C & Hn & He). unfold open_logs.
-  destruct (nil_or_not Ac) as [EA|EA].
+  intros P d i0 Ac I. pose proof I as (H1 & Hch & V & C & Hn & HKl). unfold open_logs.
+  destruct (nil_or_not Ac) as [EA|EA]; [destruct (nil_or_not (d_files d)) as [Ef|Ef]|].
   - (* nothing on disk but an empty file: it is removed and a new one created *)
-    rewrite (He EA). cbn [app map]. unfold sort_files. cbn [fold_left insert_file filter].
+    rewrite Ef. cbn [app map]. unfold sort_files. cbn [fold_left insert_file filter].
     rewrite forget_first, (view_first_empty P (d_cur d) Ac [] (i0 + flen (d_files d)) V C ltac:(lia) EA).
     cbn [N.eqb negb rev].
-    split; [|split; [|reflexivity]].
+    split; [|split; [|split; [reflexivity|congruence]]].
     + assert (Vn : forall x, fview P (new_file P x false) [] []).
       { intro x. constructor; cbn; try reflexivity; try constructor. lia. }
-      unfold dinv. cbn [d_files d_cur d_next chain]. subst Ac.
-      split; [exact H1|]. split; [exact Logic.I|]. split; [apply Vn|]. split; [exact Logic.I|]. split; reflexivity.
-    + rewrite !log_of_eq. cbn [d_files d_cur map concat app]. rewrite (He EA). cbn [map concat app].
+      exists []. unfold dinv. cbn [d_files d_cur d_next chain].
+      split; [exact H1|]. split; [exact Logic.I|]. split; [apply Vn|]. split; [exact Logic.I|]. split; [reflexivity|]. intros _. constructor.
+    + rewrite !log_of_eq. cbn [d_files d_cur map concat app]. rewrite Ef. cbn [map concat app].
       rewrite (fv_entries P (d_cur d) Ac [] V), EA. reflexivity.
+  - (* the empty current file beside older files is dropped; the newest rotated file becomes the current one *)
+    destruct (exists_last Ef) as (pre & f & Hf).
+    pose proof (HKl EA) as Hal.
+    pose proof Hch as Hch0. rewrite Hf in Hch. apply chain_app in Hch as [Hpre Hrest]. cbn [chain] in Hrest.
+    destruct Hrest as (A & D & Vf & HA & Cf & _).
+    assert (ED : D = []).
+    { rewrite Hf in Hal. apply Forall_app in Hal as [_ Hal]. inversion Hal as [|? ? Hlf _]; subst.
+      unfold all_live in Hlf. rewrite (fv_rows _ _ _ _ Vf), forallb_rev, forallb_app in Hlf.
+      apply andb_true_iff in Hlf as [_ Hlf]. destruct D as [|g t]; [reflexivity|].
+      cbn [forallb] in Hlf. apply andb_true_iff in Hlf as [Hg _].
+      pose proof (fv_dead _ _ _ _ Vf) as HD. inversion HD as [|? ? [Hg0 _] _]; subst.
+      unfold live_row in Hg. rewrite Hg0 in Hg. discriminate. }
+    subst D.
+    set (files' := map forget (d_files d)).
+    assert (Hall : map forget (d_files d ++ [d_cur d]) = files' ++ [forget (d_cur d)]) by (rewrite map_app; reflexivity).
+    assert (Hchf : chain P i0 files') by (now apply chain_forget).
+    assert (Hc0 : file_first (forget (d_cur d)) = 0).
+    { rewrite forget_first. apply (view_first_empty P (d_cur d) Ac [] (i0 + flen (d_files d)) V C ltac:(lia) EA). }
+    assert (Hsort : sort_files (files' ++ [forget (d_cur d)]) = forget (d_cur d) :: files').
+    { unfold sort_files. rewrite fold_left_app. cbn [fold_left].
+      rewrite (sort_files_sorted files' []); [cbn [app]|].
+      - apply insert_file_first. pose proof (chain_firsts P files' i0 Hchf H1) as F.
+        eapply Forall_impl; [|exact F]. cbn. intros g [G1 _]. rewrite Hc0. lia.
+      - cbn [app]. intros a g b E. exact (chain_sorted P files' i0 a g b Hchf H1 E). }
+    assert (Hfilter : filter (fun g => negb (file_first g =? 0)) (forget (d_cur d) :: files') = files').
+    { cbn [filter]. rewrite Hc0. cbn [N.eqb negb]. apply filter_all. pose proof (chain_firsts P files' i0 Hchf H1) as F.
+      eapply Forall_impl; [|exact F]. cbn. intros g [G1 G2]. destruct (file_first g =? 0) eqn:E; [lia|reflexivity]. }
+    rewrite Hall, Hsort, Hfilter. unfold files'. rewrite Hf, map_app, rev_app_distr. cbn [map rev app]. rewrite rev_involutive.
+    rewrite (first_empty_view P (forget f) A [] 1 (forget_view P _ _ _ Vf) ltac:(lia)).
+    split; [|split; [|split; [reflexivity|congruence]]].
+    + exists A. unfold dinv. cbn [d_files d_cur d_next].
+      rewrite (flen_map _ pre (map_forget_entries _)).
+      split; [exact H1|]. split; [now apply chain_forget|]. split; [now apply forget_view|]. split; [exact Cf|].
+      split; [reflexivity|]. intro E. congruence.
+    + rewrite !log_of_eq. cbn [d_files d_cur]. rewrite map_forget_entries, Hf, map_app, concat_app. cbn [map concat].
+      rewrite app_nil_r, (fv_entries P (d_cur d) Ac [] V), EA. cbn [map]. rewrite app_nil_r. reflexivity.
   - set (all := map forget (d_files d ++ [d_cur d])).
     assert (Hall : all = map forget (d_files d) ++ [forget (d_cur d)]) by (unfold all; rewrite map_app; reflexivity).
     assert (Hchain_all : chain P i0 all).
@@ -495,8 +597,12 @@ Proof.
       eapply Forall_impl; [|exact F]. cbn. intros g [G1 G2]. destruct (file_first g =? 0) eqn:E; [lia|reflexivity]. }
     rewrite Hsort, Hfilter, Hall, rev_app_distr. cbn [rev app]. rewrite rev_involutive.
     rewrite (first_empty_view P (forget (d_cur d)) Ac [] 1 (forget_view P _ _ _ V) ltac:(lia)).
-    split; [|split; [|reflexivity]].
-    + unfold dinv. cbn [d_files d_cur d_next]. rewrite (flen_map _ (d_files d) (map_forget_entries _)).
+    assert (Inew : dinv P i0 (mkdisk (map forget (d_files d)) (forget (d_cur d)) (N.of_nat (length Ac)) (d_meta d)) Ac).
+    { unfold dinv. cbn [d_files d_cur d_next]. rewrite (flen_map _ (d_files d) (map_forget_entries _)).
+      split; [exact H1|]. split; [now apply chain_forget|]. split; [now apply forget_view|]. split; [exact C|].
+      split; [reflexivity|]. intro E. congruence. }
+    split; [|split; [|split; [reflexivity|intros _; exact Inew]]].
+    + exists Ac. unfold dinv. cbn [d_files d_cur d_next]. rewrite (flen_map _ (d_files d) (map_forget_entries _)).
       split; [exact H1|]. split; [now apply chain_forget|]. split; [now apply forget_view|]. split; [exact C|].
       split; [reflexivity|]. intro E. congruence.
     + rewrite !log_of_eq. cbn [d_files d_cur]. rewrite map_forget_entries. reflexivity.
@@ -505,13 +611,13 @@ Qed.
 Lemma step_reopen : forall P d i0 Ac, dinv P i0 d Ac -> step_ok P Reopen d.
 Proof.
   intros P d i0 Ac I. unfold step_ok. cbn [step_disk step_spec]. unfold reopen.
-  destruct (open_logs_inv P d i0 Ac I) as (I1 & L1 & M1).
+  destruct (open_logs_inv P d i0 Ac I) as ((Ac1 & I1) & L1 & M1 & _).
   set (d1 := open_logs P d) in *.
   set (j := (if 0 <? snap_i (d_meta d1) then snap_i (d_meta d1) + 1 else disk_first d1) - 1).
-  destruct (delete_before_state P d1 i0 Ac j I1) as ((i0' & I') & L' & M' & _).
+  destruct (delete_before_state P d1 i0 Ac1 j I1) as ((i0' & I') & L' & M' & _).
   set (d' := snd (delete_before P j d1)) in *.
   change (r_first (dres P d' Ok [] 0 None)) with (disk_first d').
   split; [eauto|]. split.
   - rewrite abs_log, L', M', L1, M1. reflexivity.
-  - rewrite (dres_res P d' i0' Ac _ _ _ _ I'). rewrite abs_log, L', M', L1, M1. reflexivity.
+  - rewrite (dres_res P d' i0' Ac1 _ _ _ _ I'). rewrite abs_log, L', M', L1, M1. reflexivity.
 Qed.
